@@ -45,7 +45,8 @@ Theorem C04_roe_single_key :
     (forall e, In e (roe_map bs) -> fst e = IBefore)
     /\ (length (roe_map bs) <= 1)%nat
     /\ (forall es, Permutation (roe_map bs) es -> es = roe_map bs)
-    /\ (forall st w, r_roe st = bs -> resolve_entries (roe_map bs) w = snd (resolve_roe st w)).
+    /\ (forall k st w, bs <> [] -> ron_get k (r_roe st) = Some (mkPend2 (mkPend [] bs) pend0) ->
+          resolve_entries (roe_map bs) w = snd (resolve_roe k st w)).
 Proof. exact roe_single_key. Qed.
 Print Assumptions C04_roe_single_key.
 
